@@ -1,7 +1,7 @@
 PROP = dict(
     drivers=['Term', 'FontLoad', 'Rect', 'LoaderCost'],
-    gens=['loops', 'fontpal', 'crc', 'palette', 'xb', 'loaders', 'loaderloops', 'termresize', 'sixel'],
-    lake=['IcyVerif.Props.C03', 'IcyVerif.Props.C03Loaders', 'IcyVerif.Props.C03Sixel'],
+    gens=['loops', 'fontpal', 'crc', 'palette', 'xb', 'loaders', 'loaderloops', 'termresize', 'sixel', 'macroentry'],
+    lake=['IcyVerif.Props.C03', 'IcyVerif.Props.C03Loaders', 'IcyVerif.Props.C03Sixel', 'IcyVerif.Props.C03Macro'],
     ns='IcyVerif.C03',
     theorems=['all_loops_known', 'loop_inventory_complete', 'parse_number_bounded', 'rep_count_le', 'tab_count_le',
               'ich_count_le', 'il_count_le', 'scroll_count_le', 'scroll_lr_count_le', 'up_scroll_count_le',
@@ -11,7 +11,9 @@ PROP = dict(
               'loader_loops_known', 'loader_loop_inventory_complete', 'loader_guards_present', 'loader_cost_refines_c02',
               'xb_loader_cost', 'bin_loader_cost', 'adf_loader_cost', 'idf_loader_cost', 'tnd_loader_cost', 'tdf_loader_cost',
               'icy_guard_present', 'icy_layer_cost_partial', 'icy_rows_unbounded_without_guard', 'loader_cost',
-              'sixel_limits_from_source', 'sixel_state_bounded', 'sixel_never_huge', 'sixel_picture_bounded', 'sixel_cost'],
+              'sixel_limits_from_source', 'sixel_state_bounded', 'sixel_never_huge', 'sixel_picture_bounded', 'sixel_cost',
+              'macro_limits_from_source', 'macro_depth_guard_in_callee', 'macro_depth_uses_known', 'entry_points_known',
+              'macro_counter_refines', 'macro_nesting_bounded', 'macro_nesting_bounded_stream', 'macro_nesting_unbounded_without_callee_guard'],
     harness='c03',
     harness_timeout=2400,
     design='DESIGN.md §4 C03',
@@ -23,7 +25,10 @@ PROP = dict(
                'iterations, rows allocated by Layer::set_char, bytes copied - that provably forget to the C02 loader models and whose '
                'counters are bounded by explicit polynomials in the file length for ALL byte strings and on every outcome; the sixel '
                'decoder (size-limited since two repairs) has a state bound, a picture bound, unreachability of the out-of-range outcome and a '
-               'bound on the repeat loop for all payloads. Wall-clock time, allocator behaviour and stack are outside any model and are '
+               'bound on the repeat loop for all payloads. Macro replay - the one native recursion of the parser - is modelled a second time with the code\'s own '
+               'accounting (counter macro_depth + one test): FROM the regenerated fact that the test sits in invoke_macro_by_id itself, in front of the counter and '
+               'the loop, the counter model is proved equal to the terminal model and the nesting is proved <= MAX_MACRO_DEPTH through BOTH call paths (CSI Pn * z '
+               'handler and ESC [ Pn * z inside a DCS string), for all macro tables; with the test in the handler only the model nests as deep as it has frames. Wall-clock time, allocator behaviour and stack are outside any model and are '
                'measured on the real code by the oracle (per-token / per-file time, cells and picture bytes allocated, address-space cap, '
                'crash-isolated workers). PARTIAL: the number of CELLS a loader allocates is rows x a DECLARED width (IcyDraw layer width, '
                'SAUCE width <= 1000): three recorded findings',
@@ -43,12 +48,21 @@ PROP = dict(
               'declared row). Sixel: C14\'s Model/Sixel follows the two size-limit repairs; invariant Small (<= MAX rows of <= 4 MAX bytes, '
               '<= MAXC palette entries) preserved by every step, Out.huge unreachable, repeat loop <= MAX per character. Tie: cells allocated '
               '(sum of row lengths) and rows of the real loaders / picture size of the real decoder equal the model\'s for every generated file '
-              '(driver loadercost), constants + guard texts regenerated',
+              '(driver loadercost), constants + guard texts regenerated. '
+              'Macro nesting: Model/TermMacroDepth (stepK: counter k, fuel = native frames, flag inCallee; the call path is read off the state the caller hands over) '
+              'refines step by induction on the levels left (Lemmas/TermMacroDepth, funext on the invoker); Gen/MacroEntry regenerates the placement flag, every line '
+              'touching macro_depth / macro_budget and every call site of the bounded functions (23 entry edges) - the translator fails when an edge has no generator '
+              'family in harness/src/c03nest.rs; nesting oracle: markers printed per level counted on the real terminal on a 2 GiB-stack thread',
     rule='cases: the control-function table (64 CSI finals x 8 intermediates x 0..6 parameters from {0, 1, h, w, 2^16, '
          '10^6, 2^31-1}; all pairs in thorough, sampled in quick) after 5 state prefixes (scrollback, margins, '
          'left/right margins, insert mode) on 4 screen sizes; a text-area resize CSI 8;rows;cols t with rows, cols from {0,1,25,60,61,132,133,'
          '65536,2^31-1} FOLLOWED BY each of 16 repeat-style commands with an extreme count (also inside a macro); recursive / mutually '
-         'recursive / fan-out macros, hex repeat groups, Avatar repeats; sixel payloads: raster attributes, repeat counts (before data and '
+         'recursive / fan-out macros, hex repeat groups, Avatar repeats; macro nesting families (c03nest.rs): cycles of 1..3 macros x 6 hand-over patterns (CSI '
+         'handler, in-DCS with the DCS re-opened on every level, alternating, RIP-request fallback in front, mixed) x top-level invocation by CSI / inside a DCS x padding '
+         '{0,40,600} x definition {hex, hex repeat group, text macro spliced into a hex definition by an in-DCS invocation} x emulation {ANSI, Avatar, PCBoard, Renegade, '
+         'Ctrl-A}, in-DCS recursion WITHOUT re-opening (id saturated at 2147483599, digit-append chain 5 -> 55 -> ...), fan-out 2 through both paths, marker printed by a text '
+         'leaf macro, Avatar repeat handing z to a pending CSI 6 *, structured random chains; REP / hex repeat groups / sixel repeat, raster and colour headers reached from a '
+         'macro replay (both paths) and from a spliced DCS; sixel payloads: raster attributes, repeat counts (before data and '
          'before every control character), colour registers and cursor positions from {0,1,6,100,4095,4096,4097,65536,10^6,2147483599,'
          '2^31-1,10^11}, the largest legal picture, structured random payloads of <= 64 bytes; custom-font payloads; font '
          'loaders: PSF1 heights {0,1,2,16,255} x modes x data of 0..256 KiB, PSF2 size fields at 14 extremes with 0/64/4096 data '
@@ -62,20 +76,23 @@ PROP = dict(
          'declared sizes (0 x 2^31-1, 2^31 x 2^31-1, 10^6 x 10^6 ...) x 5 cell shapes x continuation chunks; TheDraw bundles whose 94 glyphs '
          'share one long glyph; random tails behind every magic; evaluations = sequences / files run; distinct_nontrivial = distinct inputs',
     modelled='loop counts of REP, CVT/CBT, ICH, DCH, IL, DL, SU/SD, SL/SR, cursor-up scrolling; number parsing; hex macro '
-             'repeat expansion; macro replay depth/budget; the text-area resize clamps and the terminal size along every stream; '
+             'repeat expansion; macro replay depth/budget - the nesting depth both as structural fuel (stepD) and as the code\'s counter with the test in the callee (stepK, '
+             'Model/TermMacroDepth), for both call paths into invoke_macro_by_id (CSI Pn * z handler, state ReadPossibleMacroInDCS); the call-site inventory of every '
+             'bounded loop / recursion (Gen/MacroEntry); the text-area resize clamps and the terminal size along every stream; '
              'BitFont::from_bytes (PSF1/PSF2/raw, glyphs_from_u8_data, calculate_checksum loop bound) with iteration counters; DECRQCRA '
              'guard and loop counts, get_rect_area clamps and the DECFRA/DECERA/DECSERA loop counts; number of colours a palette importer '
              'produces (Model/PalLoad); every loop of the XBin (raw, compressed), BIN, ADF, IDF, Tundra, TheDraw and IcyDraw LAYER / LAYER~k '
              'loaders with counters for iterations, rows allocated by Layer::set_char and bytes copied (Model/LoaderCost, incl. the '
              'Buffer::from_bytes dispatch); the sixel decoder\'s allocation sizes, size guards and repeat loop (Model/Sixel + Lemmas/SixelCost)',
-    not_modelled='time, memory, stack (oracle only); cells allocated = rows x declared width where the width is declared by the file '
+    not_modelled='time, memory, stack (oracle only; the NUMBER of nested replay levels is modelled and proved, the bytes of stack per level are not - the oracle runs every '
+                 'nesting case on the real parser and counts the levels); cells allocated = rows x declared width where the width is declared by the file '
                  '(IcyDraw layer width up to 2^31-1: finding file:icy:runaway; SAUCE width up to 1000 x 65535 rows: findings '
-                 'file:tnd:slow-or-huge, file:ans:slow-or-huge); text-format files on non-terminal buffers (ANSI, PCBoard, Avatar ... through '
+                 'file:icy:huge, file:tnd:huge, file:ans:huge); text-format files on non-terminal buffers (ANSI, PCBoard, Avatar ... through '
                  'parse_with_parser: oracle only - the cursor-row cap MAX_FILE_BUFFER_HEIGHT is regenerated, not modelled); the PNG / zlib / '
                  'base64 layer of .icy; the regex engine behind the palette importers; the tab-stop report DECTABSR (inventory + timing only); '
                  'per-call cost of parse_sixel_data beyond "at most 6 pixels and the rows it appends" (the state bound covers memory)',
     assumptions=['thresholds of the oracle: a token, loader case or rectangle command slower than 3000 ms (debug build, thread CPU time), a token adding more than one screenful '
-                 '+ its own length of rows, a loader allocating more than 8M cells, a sixel picture of more than 4 x MAX_SIXEL_SIZE^2 bytes, an '
+                 '+ its own length of rows, a loader allocating more than 8M cells, a sixel picture of more than 4 x MAX_SIXEL_SIZE^2 bytes, a macro nesting case printing more level markers than MAX_MACRO_DEPTH x markers per level (x the fan-out sum), an '
                  'accepted font declaring more glyphs than max(512, file length), or a worker killed by the 6 GB '
                  'address-space cap / 20 s (8 s for loader, rectangle and resize cases) without progress counts as a violation',
                  'usize offsets of the loader models are unbounded naturals (files far below 2^64 bytes); the Tundra palette search is counted at its '
